@@ -244,7 +244,7 @@ def transform_tree(source, how):
 
 
 TREE2 = ('NOTIN', 'TUPSPLIT', 'IFEXPSTMT', 'WHILEBRK', 'COMPLOOP', 'LAMBDADEF', 'NPALIAS', 'ELSEWRAP', 'ELSEUNWRAP', 'CHAINCMP', 'RANGE0',
-         'EMPTYLIT')
+         'EMPTYLIT', 'KWCALL', 'DOCSTRIP', 'CONDTMP', 'RECVTMP', 'LOOPUNPACK', 'TUPJOIN', 'ANDSPLIT', 'ANDJOIN')
 SITES = {}
 
 
@@ -486,6 +486,159 @@ def transform_tree2(tree, how):
                     return ast.Call(func=ast.Name(id='list', ctx=ast.Load()), args=[], keywords=[])
                 return node
         tree = E().visit(tree)
+    elif how == 'KWCALL':
+        # f(a, b, c) -> f(a, b=b', c=c') for callees defined in the same module (module-level functions, methods called on self)
+        funcs = {}
+        for n in tree.body:
+            if isinstance(n, ast.FunctionDef):
+                funcs[('', n.name)] = n
+            elif isinstance(n, ast.ClassDef):
+                for m in n.body:
+                    if isinstance(m, ast.FunctionDef):
+                        funcs[(n.name, m.name)] = m
+
+        def params_of(fn, skip_self):
+            a = fn.args
+            if a.vararg or a.kwarg or a.posonlyargs or fn.decorator_list:
+                return None
+            ps = [x.arg for x in a.args]
+            return ps[1:] if skip_self else ps
+
+        class KW(ast.NodeTransformer):
+            def __init__(self):
+                self.cls = ''
+
+            def visit_ClassDef(self, node):
+                old, self.cls = self.cls, node.name
+                self.generic_visit(node)
+                self.cls = old
+                return node
+
+            def visit_Call(self, node):
+                self.generic_visit(node)
+                ps = None
+                if isinstance(node.func, ast.Name) and ('', node.func.id) in funcs:
+                    ps = params_of(funcs[('', node.func.id)], False)
+                elif isinstance(node.func, ast.Attribute) and isinstance(node.func.value, ast.Name) and node.func.value.id == 'self' \
+                        and (self.cls, node.func.attr) in funcs:
+                    ps = params_of(funcs[(self.cls, node.func.attr)], True)
+                if ps is None or len(node.args) < 2 or len(node.args) > len(ps) or any(isinstance(a, ast.Starred) for a in node.args) \
+                        or any(k.arg is None for k in node.keywords):
+                    return node
+                count[0] += 1
+                extra = [ast.keyword(arg=ps[i], value=a) for i, a in enumerate(node.args) if i >= 1]
+                node.args = node.args[:1]
+                node.keywords = extra + node.keywords
+                return node
+        tree = KW().visit(tree)
+    elif how == 'DOCSTRIP':
+        for n in ast.walk(tree):
+            if isinstance(n, (ast.FunctionDef, ast.ClassDef, ast.Module)) and n.body and isinstance(n.body[0], ast.Expr) \
+                    and isinstance(n.body[0].value, ast.Constant) and isinstance(n.body[0].value.value, str) and len(n.body) > 1:
+                n.body = n.body[1:]
+                count[0] += 1
+    elif how == 'CONDTMP':
+        class CT(ast.NodeTransformer):
+            def __init__(self):
+                self.k = 0
+
+            def visit_Lambda(self, node):
+                return node
+
+            def visit_If(self, st):
+                self.generic_visit(st)
+                t = st.test
+                if isinstance(t, (ast.Call, ast.BoolOp, ast.Compare)) and not any(isinstance(x, (ast.NamedExpr, ast.Yield, ast.Await)) for x in ast.walk(t)):
+                    self.k += 1
+                    count[0] += 1
+                    nm = '_cond%d' % self.k
+                    pre = ast.Assign(targets=[ast.Name(id=nm, ctx=ast.Store())], value=t, lineno=st.lineno, col_offset=st.col_offset)
+                    st.test = ast.Name(id=nm, ctx=ast.Load())
+                    return [pre, st]
+                return st
+        # an `elif` is an If inside orelse: hoisting its test in front of it stays inside that orelse - fine
+        tree = CT().visit(tree)
+    elif how == 'RECVTMP':
+        class RT(ast.NodeTransformer):
+            def __init__(self):
+                self.k = 0
+
+            def visit_Lambda(self, node):
+                return node
+
+            def hoist(self, st, call):
+                if isinstance(call, ast.Call) and isinstance(call.func, ast.Attribute) and isinstance(call.func.value, ast.Call) \
+                        and not any(isinstance(x, (ast.Lambda, ast.GeneratorExp, ast.ListComp)) for x in ast.walk(call.func.value)):
+                    self.k += 1
+                    count[0] += 1
+                    nm = '_recv%d' % self.k
+                    pre = ast.Assign(targets=[ast.Name(id=nm, ctx=ast.Store())], value=call.func.value, lineno=st.lineno, col_offset=st.col_offset)
+                    call.func.value = ast.Name(id=nm, ctx=ast.Load())
+                    return [pre, st]
+                return st
+
+            def visit_Assign(self, st):
+                return self.hoist(st, st.value)
+
+            def visit_Return(self, st):
+                return self.hoist(st, st.value) if st.value is not None else st
+
+            def visit_Expr(self, st):
+                return self.hoist(st, st.value)
+        tree = RT().visit(tree)
+    elif how == 'LOOPUNPACK':
+        k = [0]
+        for n in ast.walk(tree):
+            if isinstance(n, ast.For) and isinstance(n.target, ast.Tuple) and all(isinstance(e, ast.Name) for e in n.target.elts):
+                k[0] += 1
+                count[0] += 1
+                nm = '_item%d' % k[0]
+                unpack = ast.Assign(targets=[n.target], value=ast.Name(id=nm, ctx=ast.Load()), lineno=n.lineno, col_offset=n.col_offset)
+                n.target = ast.Name(id=nm, ctx=ast.Store())
+                n.body = [unpack] + n.body
+    elif how == 'TUPJOIN':
+        def join(block):
+            out = []
+            i = 0
+            while i < len(block):
+                a = block[i]
+                b = block[i + 1] if i + 1 < len(block) else None
+                simple = lambda s_: isinstance(s_, ast.Assign) and len(s_.targets) == 1 and isinstance(s_.targets[0], ast.Name)
+                if b is not None and simple(a) and simple(b) and a.targets[0].id != b.targets[0].id \
+                        and not any(isinstance(x, ast.Name) and x.id == a.targets[0].id for x in ast.walk(b.value)) and pure(a.value) and pure(b.value):
+                    count[0] += 1
+                    out.append(ast.Assign(targets=[ast.Tuple(elts=[a.targets[0], b.targets[0]], ctx=ast.Store())],
+                                          value=ast.Tuple(elts=[a.value, b.value], ctx=ast.Load()), lineno=a.lineno, col_offset=a.col_offset))
+                    i += 2
+                    continue
+                out.append(a)
+                i += 1
+            return out
+        for n in ast.walk(tree):
+            for f in ('body', 'orelse', 'finalbody'):
+                b = getattr(n, f, None)
+                if isinstance(b, list) and b and isinstance(b[0], ast.stmt):
+                    setattr(n, f, join(b))
+    elif how == 'ANDSPLIT':
+        class AS(ast.NodeTransformer):
+            def visit_If(self, st):
+                self.generic_visit(st)
+                if not st.orelse and isinstance(st.test, ast.BoolOp) and isinstance(st.test.op, ast.And) and len(st.test.values) == 2:
+                    count[0] += 1
+                    inner = ast.If(test=st.test.values[1], body=st.body, orelse=[], lineno=st.lineno, col_offset=st.col_offset)
+                    return ast.If(test=st.test.values[0], body=[inner], orelse=[], lineno=st.lineno, col_offset=st.col_offset)
+                return st
+        tree = AS().visit(tree)
+    elif how == 'ANDJOIN':
+        class AJ(ast.NodeTransformer):
+            def visit_If(self, st):
+                self.generic_visit(st)
+                if not st.orelse and len(st.body) == 1 and isinstance(st.body[0], ast.If) and not st.body[0].orelse:
+                    count[0] += 1
+                    return ast.If(test=ast.BoolOp(op=ast.And(), values=[st.test, st.body[0].test]), body=st.body[0].body, orelse=[],
+                                  lineno=st.lineno, col_offset=st.col_offset)
+                return st
+        tree = AJ().visit(tree)
     else:
         raise AnalysisError('unknown whole-tree rewrite %s' % how)
     SITES[how] = SITES.get(how, 0) + count[0]
